@@ -5,7 +5,9 @@ package server
 // (with its cleaner goroutine running on the bubble's virtual clock) is looked up in it.
 
 import (
+	"bytes"
 	"encoding/base64"
+	"encoding/binary"
 	"fmt"
 	mrand "math/rand/v2"
 	"runtime"
@@ -157,6 +159,39 @@ func c08History(t *testing.T, r *vk.Reporter, id string, kind string, rng *mrand
 			time.Sleep(2 * time.Second)
 			present(k1) // the same packet again: must be recognised
 			present(k0)
+		case "flood", "flood-big":
+			// between the capture and its replay, tens of thousands of other first packets (distinct
+			// ephemeral keys, none of them authentic - anybody can send those) reach the server
+			k0 := create(time.Duration(rng.IntN(100))*time.Second, "direct")
+			present(k0)
+			present(k0)
+			tmpl := pkts[k0].first
+			ch, err := vk.ParseClientHello(tmpl[5:])
+			if err != nil {
+				panic(err)
+			}
+			at := bytes.Index(tmpl, ch.Random)
+			junkN := 3000
+			if kind == "flood-big" {
+				junkN = 70000 // more than 2^16 distinct keys inside one acceptance window
+			}
+			for j := 0; j < junkN; j++ {
+				junk := append([]byte{}, tmpl...)
+				for b := 0; b < 32; b++ {
+					junk[at+b] = byte(rng.Uint32())
+				}
+				binary.BigEndian.PutUint32(junk[at:], uint32(j)) // distinct for sure
+				junk[at+31] &= 0x7f
+				AuthFirstPacket(junk, pkts[k0].tr, g.sta)
+				if j%1000 == 999 {
+					time.Sleep(100 * time.Millisecond)
+				}
+			}
+			r.Count("flood_packets", int64(junkN))
+			sleepUntil(10 * time.Second)
+			present(k0) // still inside its window: must be recognised
+			time.Sleep(60 * time.Second)
+			present(k0)
 		case "boundary":
 			// first sightings just before a clean-up tick, re-presentations just after it
 			tick := time.Duration(12*(1+rng.IntN(3))) * time.Hour
@@ -303,6 +338,12 @@ func TestVerif_C08(t *testing.T) {
 		}
 		if i%6 == 1 {
 			kind = "scan-race"
+		}
+		if i%12 == 5 {
+			kind = "flood"
+			if r.Thorough() && i%60 == 5 {
+				kind = "flood-big"
+			}
 		}
 		id := fmt.Sprintf("history/%s/%d", kind, i)
 		if !r.Mine(id) {
